@@ -19,7 +19,7 @@ for pid in [f'C{i:02d}' for i in range(1, 21)]:
     checks.append({
         'property_id': pid,
         'quick_cmd': f'/verif/bin/govc check --property {pid} --tier quick',
-        'thorough_cmd': f'/verif/bin/govc check --property {pid} --tier thorough',
+        'thorough_cmd': f'/verif/tools/thorough.sh {pid}',
         'evidence_file': f'/verif/evidence/{pid}.json',
         'replay_cmd_template': '/verif/bin/govc replay {path}',
         'engine': 'govc',
